@@ -223,6 +223,24 @@ theorem ivset_difference_mem (s other : IvSet) (hs : WF s.ivs) (ho : WF other.iv
   · intro h; exact ⟨h3 x h, h5 hok x h⟩
   · rintro ⟨h, hn⟩; exact h4 x h hn
 
+/-- `intersection` (the in-place `intersection::apply` with its `split_off_a!` bookkeeping): exactly the
+    set intersection, in normal form. `mx` is the maximum of the integer type (`u64::MAX`,
+    `VarInt::MAX`): the second `step_up_saturating` of `split_off_a!` can saturate there, which the
+    model reproduces. The limit is IGNORED by this operation (see the example below). -/
+theorem ivset_intersection_mem (mx : Nat) (s other : IvSet) (hs : WF s.ivs) (ho : WF other.ivs)
+    (hmx : ∀ c ∈ s.ivs, c.hi ≤ mx) :
+    WF (s.intersection mx other).ivs ∧ (s.intersection mx other).limit = s.limit ∧
+    ∀ x, Mem (s.intersection mx other).ivs x ↔ Mem s.ivs x ∧ Mem other.ivs x :=
+  ⟨(intersectApply_spec mx s.ivs other.ivs hs ho hmx).1, rfl, (intersectApply_spec mx s.ivs other.ivs hs ho hmx).2⟩
+
+/-- `intersection` can leave MORE intervals than the limit allows (one interval cut by three) -/
+theorem ivset_intersection_ignores_limit :
+    (IvSet.intersection 18446744073709551615 ⟨some 1, [⟨0, 10⟩]⟩ ⟨none, [⟨1, 1⟩, ⟨3, 3⟩, ⟨5, 5⟩]⟩)
+      = ⟨some 1, [⟨1, 1⟩, ⟨3, 3⟩, ⟨5, 5⟩]⟩ := by rfl
+
+/-- the saturating corner of `split_off_a!` at the type's maximum -/
+example : (IvSet.intersection 255 ⟨none, [⟨250, 255⟩]⟩ ⟨none, [⟨252, 254⟩]⟩) = ⟨none, [⟨252, 254⟩]⟩ := by rfl
+
 -- ---------------------------------------------------------------------------------------------
 -- every operation sequence
 
